@@ -328,6 +328,8 @@ var c17RoundCases = []struct {
 	{-2.5, 0, -2}, {2.5, 0, 3}, {-7.5, 0, -7}, {0.5, 0, 1}, {-0.5, 0, 0}, {1.005, 1, 1}, {12, 2, 12}, {-1.75, 1, -1.7}, {1.75, 1, 1.8},
 	// more places than a float64 has, and rounding to a magnitude beyond it: exact, never NaN
 	{1.5, 309, 1.5}, {1.5, 400, 1.5}, {-2.25, 320, -2.25}, {1250, -2, 1300}, {15, -1, 20}, {7, -400, 0}, {1e300, 10, 1e300}, {5, math.MinInt64, 0}, {-5, math.MinInt64 + 1, 0}, {5, math.MaxInt64, 5},
+	// to tens and hundreds: negative and fractional operands around the midpoints
+	{-15.5, -1, -20}, {-5.25, -1, -10}, {-250.5, -2, -300}, {-14.75, -1, -10}, {15.5, -1, 20}, {-16.5, -1, -20}, {-15, -1, -10}, {14.99, -1, 10}, {-5.75, -1, -10}, {-4.99, -1, 0},
 }
 
 // VerifC17RoundPlaces: round half up to the requested number of places (forked operand set:
